@@ -221,7 +221,9 @@ func extraPkgs(rel string) []string {
 	return pkgDeps[rel]
 }
 
-var pkgDeps = map[string][]string{}
+var pkgDeps = map[string][]string{
+	"pkg/partition": {"pkg/convert"},
+}
 
 func cmdReplay(args []string) int   { fmt.Println("replay: not implemented yet"); return 2 }
 func cmdSelftest(args []string) int { fmt.Println("selftest: not implemented yet"); return 2 }
